@@ -789,7 +789,7 @@ class Unit:
     # running a function under a contract
     # ------------------------------------------------------------------------------------------
     def prove_function(self, module, qualname, setup, post=None, raises=(), label=None, on_raise=None,
-                       bound_self=False, max_paths=400, replay=None):
+                       bound_self=False, max_paths=400, replay=None, modifies=()):
         """Symbolically execute the real function on the inputs built by `setup(interp)`.
 
         setup(interp) -> (args, kwargs, state);  requires go through interp.ctx.assume.
@@ -809,6 +809,18 @@ class Unit:
             args, kwargs, state = setup(interp)
             ctx.ghost['requires_len'] = len(ctx.hyps)
             ctx.ghost['state'] = state
+            # frame: containers and arrays handed in by the caller (dict / list / tensor arguments) belong to the caller; unless the
+            # contract names them in `modifies`, the function must leave them as they were
+            snap = []
+            for nm, v in [(f'#{i}', a) for i, a in enumerate(args)] + list(kwargs.items()):
+                if nm in modifies:
+                    continue
+                if isinstance(v, dict):
+                    snap.append((nm, v, 'dict', dict(v)))
+                elif isinstance(v, list):
+                    snap.append((nm, v, 'list', list(v)))
+                elif isinstance(v, STensor):
+                    snap.append((nm, v, 'tensor', (v.fn, tuple(v.shape))))
             try:
                 fi = unit.sources.function(module, qualname)
                 if fi is None:
@@ -833,6 +845,20 @@ class Unit:
             if post is not None:
                 for lab, f in post(interp, state, result):
                     ctx.oblige(f'{label}.post.{lab}', f, kind='post')
+            for nm, v, kind, old_ in snap:
+                if kind == 'dict':
+                    same = list(v) == list(old_) and all(v[k] is old_[k] or (is_sym(v[k]) and is_sym(old_[k])) for k in old_)
+                    if same and all(v[k] is old_[k] for k in old_):
+                        continue
+                    f = z3.And(z3.BoolVal(list(v) == list(old_)), *[to_z3(v[k]) == to_z3(old_[k]) for k in old_ if k in v and is_sym(v[k]) and is_sym(old_[k]) and v[k] is not old_[k]]) \
+                        if same else z3.BoolVal(False)
+                    ctx.oblige(f'{label}.frame.argument {nm} (a dict of the caller) is not modified', f, kind='frame')
+                elif kind == 'list':
+                    if len(v) != len(old_) or any(a is not b for a, b in zip(v, old_)):
+                        ctx.oblige(f'{label}.frame.argument {nm} (a list of the caller) is not modified', z3.BoolVal(False), kind='frame')
+                elif kind == 'tensor':
+                    if v.fn is not old_[0] or tuple(v.shape) != old_[1]:
+                        ctx.oblige(f'{label}.frame.argument {nm} (an array of the caller) is not modified in place', z3.BoolVal(False), kind='frame')
             return 'return', result
         t0 = time.time()
         try:
